@@ -56,7 +56,7 @@ def work(job):
     built = []
     for cid, kind, arg, dm, hist in cases:
         if kind == 'rand':
-            ch, h = c01lib.make_case(arg, dm if dm != 'promela' else 'lua')
+            ch, h = c01lib.make_case(arg, dm)
         elif kind == 'fam':
             ch, h = arg, hist
         else:
